@@ -11,6 +11,23 @@ from . import purity, solve
 from .runner import jdefault
 
 
+def _classify_exception(e, mod):
+    """An exception that escapes a case.  Raised by the package itself (innermost frame in the tree under test, or a numba error on the
+    way into its compiled kernel) for an input the generators hold to be inside the stated domain: a verdict - the same call is answered
+    on a tree where the property holds.  Anything else (the harness's own code, the operating system, memory): a harness error."""
+    tb = traceback.extract_tb(e.__traceback__)
+    pkg = os.path.realpath(boot.src_dir()) + os.sep + "bldfm" + os.sep
+    frames = [f for f in tb if os.path.realpath(f.filename).startswith(pkg)]
+    inner = os.path.realpath(tb[-1].filename) if tb else ""
+    numba_err = type(e).__module__.startswith("numba")
+    if frames and not isinstance(e, (OSError, MemoryError)) and (inner.startswith(pkg) or numba_err):
+        f = frames[-1]
+        return {"evals": 1, "nontrivial": False,
+                "violations": [{"what": "exception_inside_the_package_for_a_generated_input", "exc": f"{type(e).__name__}: {str(e)[:240]}",
+                                "raised_at": f"{os.path.basename(f.filename)}:{f.lineno} in {f.name}", "property": getattr(mod, "ID", "?")}]}
+    return {"harness_error": "".join(traceback.format_exception(type(e), e, e.__traceback__))}
+
+
 def main():
     modname, infile, outfile = sys.argv[1:4]
     boot.boot()
@@ -28,8 +45,8 @@ def main():
                 else:
                     solve.begin_case(case)
                     res = mod.run_case(case) or {}
-            except Exception:
-                res = {"harness_error": traceback.format_exc()}
+            except Exception as exc_:
+                res = _classify_exception(exc_, mod)
             purity.poison()   # the case has been judged: its result arrays are overwritten (see vlib.purity)
             pv, pc = purity.drain()
             if pv and "harness_error" not in res:
